@@ -11,11 +11,9 @@ using namespace tapkee;
 static std::string run_pca(std::map<std::string, std::string>& f)
 {
     const int N = std::stoi(f["N"]), D = std::stoi(f["D"]), d = std::stoi(f["d"]);
-    DenseMatrix X = vs::parse_mat(f["data"]).transpose(); // one column per sample
+    DenseMatrix X = vs::all_data(f).transpose(); // one column per sample
     std::srand((unsigned)std::stoul(f.count("seed") ? f["seed"] : "1"));
-    std::vector<IndexType> idx(N);
-    for (int i = 0; i < N; ++i)
-        idx[i] = i;
+    std::vector<IndexType> idx = vs::ids(f, N);
     eigen_features_callback fcb(X);
     // the two routines, called directly
     DenseVector mean = tapkee_internal::compute_mean(idx.begin(), idx.end(), fcb, D);
@@ -41,11 +39,9 @@ static std::string run_pca(std::map<std::string, std::string>& f)
 static std::string run_agree(std::map<std::string, std::string>& f)
 {
     const int N = std::stoi(f["N"]), d = std::stoi(f["d"]);
-    DenseMatrix X = vs::parse_mat(f["data"]).transpose();
+    DenseMatrix X = vs::all_data(f).transpose();
     std::srand((unsigned)std::stoul(f.count("seed") ? f["seed"] : "1"));
-    std::vector<IndexType> idx(N);
-    for (int i = 0; i < N; ++i)
-        idx[i] = i;
+    std::vector<IndexType> idx = vs::ids(f, N);
     eigen_features_callback fcb(X);
     eigen_kernel_callback kcb(X);
     eigen_distance_callback dcb(X);
